@@ -130,6 +130,17 @@ def mk_nested_case(i, rng):
         node = ('reject', "InvalidAllotmentSum", ["%d/%d" % (bsum.numerator, bsum.denominator)])
         if "amt2" in cover:
             need_cap[0] = "amt2"
+    elif side == "dst" and rng.random() < 0.15:
+        # the destination counterpart: a clause of a split that is itself a split with a wrong sum fails the whole
+        # statement, whether it is the first, a middle or the last clause, and whatever its own share is
+        bad = rng.choice(["{ 1/2 to @q1 1/3 to @q2 }", "{ 3/4 to @q1 3/4 to @q2 }", "{ 10% to @q1 remaining kept 100% to @q3 }"])
+        bsum = {"{ 1/2": Fraction(5, 6), "{ 3/4": Fraction(3, 2), "{ 10%": Fraction(11, 10)}[bad[:5]]
+        pos = rng.randrange(3)
+        parts = ["1/4 to @z1", "1/4 kept", "0% to @z3"]
+        shares = ["1/2", "50%", "2/4"]
+        parts.insert(pos, "%s to %s" % (rng.choice(shares), bad))
+        t = "{ %s }" % " ".join(parts)
+        node = ('reject', "InvalidAllotmentSum", ["%d/%d" % (bsum.numerator, bsum.denominator)])
     vars_, decls = {}, []
     amount = "[COIN %d]" % n
     if n >= 2 ** 63:
@@ -157,11 +168,14 @@ def mk_nested_case(i, rng):
 
 def nested_oracle(case, gen, go):
     st = gen["stmts"][0]
-    if st[3][0] == 'reject':
+    rej = st[3] if st[3][0] == 'reject' else (st[4] if st[4][0] == 'reject' else None)
+    if rej:
         if go["outcome"] == "ok":
-            return ["portions summing to %s were accepted (behind a source that covers the amount)" % st[3][2][0]]
-        if go.get("errKind") != st[3][1]:
-            return ["portions summing to %s rejected with %s" % (st[3][2][0], go.get("errKind"))]
+            return ["portions summing to %s were accepted (%s)" % (rej[2][0], "behind a source that covers the amount" if rej is st[3] else "as a clause of a destination split")]
+        if go.get("errKind") != rej[1]:
+            return ["portions summing to %s rejected with %s" % (rej[2][0], go.get("errKind"))]
+        if go.get("postings"):
+            return ["a rejected statement left postings"]
         return []
     try:
         exp = spec.run_statements(gen["stmts"], {})
